@@ -9,8 +9,9 @@ Lemma notrace_step g c l o :
   hooks_installed (step g c l o) = false /\
   (match o with HostSetsHooks _ _ => True | _ => sys_hook (step g c l o) = sys_hook l /\ thr_hook (step g c l o) = thr_hook l end).
 Proof.
-  intros N H. destruct o as [|f|s t]; simpl.
+  intros N H. destruct o as [| |f|s t]; simpl.
   - unfold do_start. destruct (started l); [auto|]. rewrite N. simpl. auto.
+  - unfold do_failed_start, do_start. destruct (started l); [auto|]. rewrite N. simpl. auto.
   - unfold do_shutdown. destruct (started l); simpl; [|auto]. rewrite H.
     destruct (f_flush f && negb g); simpl; [auto|]. destruct (f_poll f && negb g); simpl; [auto|].
     destruct (plugin_steps g f 0 (nplugins c)) as [ps ok]. simpl. auto.
@@ -82,4 +83,30 @@ Definition shutdown_always_restores (l : life) : life :=
 Definition notrace_clobber_witness : life :=
   shutdown_always_restores (do_start {| no_trace := true; nplugins := 0 |} (life0 5 6)).
 Theorem notrace_clobber_refuted : sys_hook notrace_clobber_witness = 0%nat /\ thr_hook notrace_clobber_witness = 0%nat.
+Proof. vm_compute. auto. Qed.
+
+(* a start that fails leaves the process's hooks as they were, nothing started and nothing for a shutdown to do ... *)
+Theorem failed_start_leaves_no_hooks c l :
+  started l = false ->
+  let l' := do_failed_start true c l in
+  sys_hook l' = sys_hook l /\ thr_hook l' = thr_hook l /\ started l' = false /\ hooks_installed l' = false /\ inert l' = true.
+Proof. intros S. unfold do_failed_start, do_start. rewrite S. destruct (no_trace c); simpl; auto. Qed.
+
+(* ... and a later start / shutdown of the same agent still restores exactly the hooks of before *)
+Theorem failed_start_then_cycle c l f :
+  started l = false ->
+  let l' := do_shutdown true c f (do_start c (do_failed_start true c l)) in
+  sys_hook l' = sys_hook l /\ thr_hook l' = thr_hook l /\ started l' = false.
+Proof.
+  intros S. destruct (failed_start_leaves_no_hooks c l S) as (E1 & E2 & E3 & _).
+  destruct (shutdown_restores c (do_failed_start true c l) f E3) as (A & B & C & _).
+  cbv zeta. rewrite A, B, C, E1, E2. auto.
+Qed.
+
+(* without the clean-up (the code before its repair) the agent's hook stays for good: the failed start installs it, the agent is not
+   marked started, so the shutdown that follows does nothing *)
+Definition failed_start_witness : life :=
+  do_shutdown true {| no_trace := false; nplugins := 0 |} {| f_flush := false; f_poll := false; f_plugin := fun _ => false |}
+              (do_failed_start false {| no_trace := false; nplugins := 0 |} (life0 5 6)).
+Theorem failed_start_without_cleanup_refuted : sys_hook failed_start_witness = AGENT /\ thr_hook failed_start_witness = AGENT.
 Proof. vm_compute. auto. Qed.
